@@ -3,11 +3,11 @@ import vlib
 CFG = dict(
     imports=["From Verif.Common Require Import Cas.", "From Verif.C19 Require Import Model Spec."],
     checker="check_case",
-    n=dict(quick=240, thorough=6000),
+    n=dict(quick=200, thorough=4000),
     shard=30,
-    rule="each case = one pool (2-8 blocks of 2-8 addresses), 1-3 hosts, an IPAM config (strict affinity / auto-allocate / "
+    rule="cases 0-2 are scripted minimal witnesses of the three handle-count findings; each other case = one pool (2-8 blocks of 2-8 addresses), 1-3 hosts, an IPAM config (strict affinity / auto-allocate / "
          "block limit), and 1-3 clients of the REAL ipamClient each running 2-15 AutoAssign / AssignIP / ReleaseIPs / "
-         "ReleaseByHandle operations against the in-memory CAS backend; even cases are sequential (one client), odd cases "
+         "ReleaseByHandle / ClaimAffinity / ReleaseAffinity operations against the in-memory CAS backend; even cases are sequential (one client), odd cases "
          "are concurrent: a seeded scheduler picks which client performs its next datastore access, injects write "
          "conflicts (4-15% of conditional writes) and at most one client crash before/after a write.  Non-trivial = "
          "sequential: at least one successful assign and one effective release; concurrent: at least one successful "
